@@ -80,6 +80,9 @@ type c13Round struct {
 	Zeta       [2]uint64     `json:"zeta"`
 	Reduced    [2][2]uint64  `json:"reduced_openings"`
 	What       string        `json:"what"`
+	// Prelude: a FRI chip for another circuit shape is created on the same API first (one gnark circuit
+	// verifying proofs of two different inner circuits)
+	Prelude *friShape `json:"other_fri_chip_first,omitempty"`
 }
 
 func (c *c13Round) index() uint64 { return c.Challenge & ((1 << c.Shape.nLog()) - 1) }
@@ -186,6 +189,10 @@ func (c *c13Round) run() caseResult {
 	addE(c.Reduced[1])
 	cc := *c
 	fn := func(api frontend.API, v []frontend.Variable) []frontend.Variable {
+		if cc.Prelude != nil {
+			pcd := cc.Prelude.repoCD()
+			fri.NewChip(api, &pcd, &pcd.FriParams)
+		}
 		cd := cc.Shape.repoCD()
 		chip := fri.NewChip(api, &cd, &cd.FriParams)
 		p := 0
@@ -557,6 +564,7 @@ type c13Combine struct {
 	Zeta    [2]uint64    `json:"zeta"`
 	X       [2]uint64    `json:"x"`
 	Reduced [2][2]uint64 `json:"reduced"`
+	Prelude *friShape    `json:"other_fri_chip_first,omitempty"`
 }
 
 func c13CombineRun(a c13Combine) caseResult {
@@ -572,6 +580,10 @@ func c13CombineRun(a c13Combine) caseResult {
 	}
 	in = append(in, u64s([]uint64{a.Alpha[0], a.Alpha[1], a.Zeta[0], a.Zeta[1], a.X[0], a.X[1], a.Reduced[0][0], a.Reduced[0][1], a.Reduced[1][0], a.Reduced[1][1]})...)
 	fn := func(api frontend.API, v []frontend.Variable) []frontend.Variable {
+		if a.Prelude != nil {
+			pcd := a.Prelude.repoCD()
+			fri.NewChip(api, &pcd, &pcd.FriParams)
+		}
 		cd := a.Shape.repoCD()
 		chip := fri.NewChip(api, &cd, &cd.FriParams)
 		p := 0
@@ -634,7 +646,7 @@ func TestC13(t *testing.T) {
 	compiledEvery = 25
 	r := s.r
 	defer r.Flush()
-	r.Rule("(i) sub-gadgets through export hooks: calculateSubgroupX on all-bit-pattern/random indices for nLog 5..32; computeEvaluation on all 16 within-coset positions x random evaluation vectors, betas and domain points (degenerate beta-on-coset stratum expects REJECT); finalPolyEval for 1..32 coefficients; friCombineInitial on random shapes, batches, alpha, openings.  (ii) whole verifyQueryRound on real rounds of the corpus and on rounds constructed backwards with the reference (1..3 reduction steps, random shapes, random high bits of the query challenge): every later element is computed from the earlier ones, Merkle trees are sealed over random siblings.  (iii) each constructed round with one ingredient changed, re-sealing the Merkle trees where needed so that only the algebra can reject (initial leaf, evaluation at/away from the query position, final-poly coefficient, alpha, beta, zeta, reduced opening), or without re-sealing, or an index bit; 'high bits only' must still accept.  Oracle: values equal the reference; round ACCEPT <=> reference round check passes.  Non-trivial = every case except unmodified constructed rounds are also counted (they exercise the accept side); distinct = full case.")
+	r.Rule("(i) sub-gadgets through export hooks: calculateSubgroupX on all-bit-pattern/random indices for nLog 5..32; computeEvaluation on all 16 within-coset positions x random evaluation vectors, betas and domain points (degenerate beta-on-coset stratum expects REJECT); finalPolyEval for 1..32 coefficients; friCombineInitial on random shapes, batches, alpha, openings.  (ii) whole verifyQueryRound on real rounds of the corpus and on rounds constructed backwards with the reference (1..3 reduction steps, random shapes, random high bits of the query challenge): every later element is computed from the earlier ones, Merkle trees are sealed over random siblings.  (iii) each constructed round with one ingredient changed, re-sealing the Merkle trees where needed so that only the algebra can reject (initial leaf, evaluation at/away from the query position, final-poly coefficient, alpha, beta, zeta, reduced opening), or without re-sealing, or an index bit; 'high bits only' must still accept; a quarter of the combine / round cases first creates a FRI chip for another circuit shape on the same API.  Oracle: values equal the reference; round ACCEPT <=> reference round check passes.  Non-trivial = every case except unmodified constructed rounds are also counted (they exercise the accept side); distinct = full case.")
 	r.Assume("reference FRI (accepts the 140 real rounds)", "degenerate points (beta on the coset, x equal to an opening point) are rejected by design of InverseExtension (C08)")
 	s.on("sub", func(b json.RawMessage) caseResult { return c13SubRun(unmarshal[c13Sub](b)) })
 	s.on("combine", func(b json.RawMessage) caseResult { return c13CombineRun(unmarshal[c13Combine](b)) })
@@ -701,12 +713,23 @@ func TestC13(t *testing.T) {
 			a.Zeta = a.X
 			class += "/degenerate-x-equals-zeta"
 		}
+		if rapid.IntRange(0, 3).Draw(rt, "prelude") == 0 {
+			ps := genShape().Draw(rt, "other_shape")
+			a.Prelude = &ps
+			class += "/after-another-fri-chip"
+		}
 		s.exec(rt, "combine", a, class)
 	})
 	rapidCheck(t, "round", tierN(330, 25000), func(rt *rapid.T) {
 		c := constructRound(rt, rapid.IntRange(0, 3).Draw(rt, "mutate") != 0)
 		c.Mode = int(genMode().Draw(rt, "mode"))
-		s.exec(rt, "round", c, "round/"+c.What)
+		rclass := "round/" + c.What
+		if rapid.IntRange(0, 3).Draw(rt, "prelude") == 0 {
+			ps := genShape().Draw(rt, "other_shape")
+			c.Prelude = &ps
+			rclass += "/after-another-fri-chip"
+		}
+		s.exec(rt, "round", c, rclass)
 	})
 	n := 0
 	stride := 4
